@@ -8,6 +8,7 @@
 -/
 import XlVerif.Lemmas.C11Names
 import XlVerif.Lemmas.C11Text
+import XlVerif.Lemmas.C11Addr
 namespace XlVerif.Props.C11
 open XlVerif XlVerif.Model.C11 XlVerif.Lemmas.C11
 open XlVerif.Spec.C11 (Text Coord PyVal Stored FTok FForm SCell Sheet Target TargetForm DefName Workbook
@@ -89,6 +90,19 @@ theorem load_cells_stored {wb : Workbook} {ig : List Text} {m : M} (h : load wb 
       (∃ sh ∈ wb.sheets, sh.name ∉ ig ∧ ∃ c ∈ sh.cells, k = Spec.C11.addr sh.name c.coord)
       ∨ k ∈ areaMembers m.formulae := by
   rw [load_cells h, stored_keys]
+
+/-! ### addresses are injective -/
+
+/-- `S!c = S'!c'` only for the same sheet name and the same coordinate — whatever characters the sheet
+    names contain (the coordinate part never contains `!`). -/
+theorem address_injective {s1 s2 : Text} {c1 c2 : Coord}
+    (h : Spec.C11.addr s1 c1 = Spec.C11.addr s2 c2) : s1 = s2 ∧ c1 = c2 := addr_injective h
+
+/-- The hypothesis "addresses pairwise different" of the theorems below follows from the invariants of a
+    SpreadsheetML file: sheet names pairwise different, one `<c>` per coordinate on each sheet. -/
+theorem addresses_distinct (wb : Workbook) (ig : List Text) (hs : (wb.sheets.map (·.name)).Nodup)
+    (hc : ∀ sh ∈ wb.sheets, (sh.cells.map (·.coord)).Nodup) :
+    ((cellEntries wb ig).map Prod.fst).Nodup := nodup_keys wb ig hs hc
 
 /-! ### `load_content`: constant or formula text + cached result, per storage form -/
 
@@ -436,6 +450,8 @@ example : bangCrash Examples.exWb [] = false ∧ rangeBangCrash (readDefinedName
 example : ∀ sh ∈ Examples.exWb.sheets, SheetWF sh := by decide +kernel
 example : ((cellEntries Examples.exWb []).map Prod.fst).Nodup := by decide +kernel
 example : ((readDefinedNames Examples.exWb).map Prod.fst).Nodup := by decide +kernel
+example : (Examples.exWb.sheets.map (·.name)).Nodup ∧ ∀ sh ∈ Examples.exWb.sheets, (sh.cells.map (·.coord)).Nodup := by
+  decide +kernel
 example : ∃ m, load Examples.exWb ["S2".toList] = .ok m :=
   load_total_partial _ _ (by decide +kernel) (by decide +kernel) (by decide +kernel)
 /-- the member `B2` of the group whose master `A2` holds `A1+$A$1` shows `=B1+$A$1`. -/
